@@ -44,7 +44,9 @@ CONSTANTS Configs,        \* set of resolver configurations (records, see below)
    A configuration (its qtype field is only a default kept for the driver):
    [ns |-> number of servers, rsf |-> retry_servfail, tcp |-> BOOLEAN, rna |-> raise_on_no_answer,
     cache |-> "none" | "simple" | "lru", life |-> lifetime, tmo |-> per-query timeout, qtype |-> STRING,
-    search |-> Seq(name), domain |-> name, ndots |-> Int (-1 = unset), usd |-> use_search_by_default]  *)
+    search |-> Seq(name), domain |-> name, ndots |-> Int (-1 = unset), usd |-> use_search_by_default,
+    glue |-> "scripted" | "do53" (driver only: scripted Nameserver objects, or real Do53Nameserver objects
+    over stubbed transports)]  *)
 
 VARIABLES cfg,         \* the resolver's configuration (fixed during a behaviour)
           qtype, qclass,  \* type and class asked for by the running resolve() call ("A"/"TXT"..., "IN"/"CH")
